@@ -44,11 +44,21 @@ func c09Jobs(tier string, seed int64) []string {
 	if tier == "thorough" {
 		steps = 3
 	}
+	// histories of three operations multiply to ~10^5 paths per first operation: thorough runs them for
+	// three list and two map first operations, two operations otherwise
 	for i := range c09ListOps {
-		jobs = append(jobs, "list:"+strconv.Itoa(steps)+":"+strconv.Itoa(i))
+		st := steps
+		if st == 3 && !(c09ListOps[i] == "append" || c09ListOps[i] == "concat" || c09ListOps[i] == "top") {
+			st = 2
+		}
+		jobs = append(jobs, "list:"+strconv.Itoa(st)+":"+strconv.Itoa(i))
 	}
 	for i := range c09MapOps {
-		jobs = append(jobs, "map:"+strconv.Itoa(steps)+":"+strconv.Itoa(i))
+		st := steps
+		if st == 3 && !(c09MapOps[i] == "put" || c09MapOps[i] == "merge") {
+			st = 2
+		}
+		jobs = append(jobs, "map:"+strconv.Itoa(st)+":"+strconv.Itoa(i))
 	}
 	for _, p := range []string{
 		`let c=[1,2].append(3); [c.append(a), c.append(b), c]`,
